@@ -95,6 +95,22 @@ Qed.
 Lemma flatten_meets_spec r : in_range r 0 -> rate_spec r 0 (flatten r).
 Proof. intros H. apply recalculate_meets_spec. exact H. Qed.
 
+(* the sharper reading of "faster by less than one nanosecond of its interval": lengthening the returned Interval by one
+   nanosecond makes the returned rate strictly slower than the original,  Q'/(I'+1) < Q/I.  For Quantity' = 1 this is the
+   clause of rate_spec; for Interval' = minimum it follows from "never faster" (found necessary by the seeded change C13d, whose
+   double rounding in the second branch stays within one nanosecond *per element* but not within one nanosecond of the Interval) *)
+Lemma spec_within_one_ns r m r' : in_range r m -> is_valid r = None -> rate_spec r m (inl r') ->
+  qty r' * ivl r < qty r * (ivl r' + 1) /\ qty r * ivl r' < (qty r' + 1) * ivl r.
+Proof.
+  unfold in_range, rate_spec, is_valid. intros (Hi & Hq & Hm) Hv (_ & _ & _ & Hi' & Hq' & H1 & H2 & H3).
+  destruct (ivl r <? 0) eqn:E1; [discriminate|]. destruct (ivl r =? 0) eqn:E2; [discriminate|].
+  destruct (qty r =? 0) eqn:E3; [discriminate|]. split; [|exact H3].
+  destruct (qty r' =? 1) eqn:E; [apply Z.eqb_eq in E; rewrite E in *; lia | nia].
+Qed.
+Lemma recalculate_within_one_ns r m r' : in_range r m -> is_valid r = None -> recalculate r m = inl r' ->
+  qty r' * ivl r < qty r * (ivl r' + 1) /\ qty r * ivl r' < (qty r' + 1) * ivl r.
+Proof. intros H Hv E. apply (spec_within_one_ns r m r' H Hv). rewrite <- E. apply recalculate_meets_spec, H. Qed.
+
 (* the error value accompanies the zero Rate: in the model an error carries no rate at all (sum type),
    enc_result renders it as 0 0, which is what the harness compares with the Go return value *)
 Lemma error_has_zero_rate r m e : recalculate r m = inr e -> enc_result (recalculate r m) = (err_code e :: 0 :: 0 :: nil)%list.
